@@ -476,6 +476,49 @@ def r86(e: Engine, rep: Report):
                       reason="dominated by reply.code == '235'")
     if not found:
         rep.error('anchor vanished: self.auth assignment in SmtpSession.AUTH')
+    # ... and only after the application's validator saw the credentials
+    vals = [n for n in g.calls() if e.call_name(n) == '_call_validator']
+    before = dataflow.must_events_before(
+        g, lambda n: ['validated'] if n in vals else [])
+    for n in g.of_kind('stmt'):
+        if isinstance(n.ast, ast.Assign) and any(
+                path_of(t, n.frame) == 'self.auth' for t in n.ast.targets) \
+                and not (isinstance(n.ast.value, ast.Constant) and
+                         not n.ast.value.value):
+            rep.evaluations += 1
+            rep.check('validated' in (before.get(n.id) or ()), 'R8.6',
+                      ctx.func.qname,
+                      'session.auth recorded only after the validator ran',
+                      'the identity is recorded before handle_auth decided: '
+                      'when the application rejects the credentials (535) '
+                      'session.auth still names them and later policy '
+                      'checks treat the session as authenticated',
+                      loc=n.loc(), reason='_call_validator on every path '
+                      'before')
+    # the authenticated flag is never taken back: AUTH stays refused for the
+    # rest of the session
+    nfl = 0
+    for mname, m in sorted(e.p.cls(SERVER).methods.items()):
+        for n in walk_own(m.node):
+            if isinstance(n, ast.Assign) and any(
+                    isinstance(t, ast.Attribute) and t.attr == 'authed' and
+                    isinstance(t.value, ast.Name) and t.value.id == 'self'
+                    for t in n.targets):
+                nfl += 1
+                falsy = isinstance(n.value, ast.Constant) and \
+                    not n.value.value
+                if mname == '__init__' or not falsy:
+                    continue
+                rep.evaluations += 1
+                rep.bad('R8.3', m.qname, 'self.authed reset',
+                        '%s clears the authenticated flag: a client that '
+                        'already authenticated can run AUTH again in the '
+                        'same session (the AUTH-after-AUTH refusal is '
+                        'defeated by going through this command first)'
+                        % mname, loc=m.loc(n))
+    if nfl < 2:
+        rep.error('anchor vanished: assignments of Server.authed (%d < 2)'
+                  % nfl)
     # server flag
     name = '_command_AUTH'
     g = c07.build(e, name)
